@@ -142,10 +142,12 @@ def generate(tier, seed):
     """TLC-enumerated table pairs -> concrete cases (list of (tid, case))."""
     cfgs = [('GenTables', 'GenTables_q', set_case, 3)]
     cfgs.append(('GenStrTables', 'GenStrTables_q', str_case, 2))
+    cfgs.append(('GenStrTables', 'GenStrTables_q1', str_case, 3))      # 1 x 1 tables of strings up to length 4
     if tier == 'thorough':
         cfgs = [('GenTables', 'GenTables_q', set_case, 16), ('GenTables', 'GenTables_t', set_case, 2),
                 ('GenTables', 'GenTables_t4', set_case, 1),
-                ('GenStrTables', 'GenStrTables_q', str_case, 8), ('GenStrTables', 'GenStrTables_t', str_case, 2)]
+                ('GenStrTables', 'GenStrTables_q', str_case, 8), ('GenStrTables', 'GenStrTables_t', str_case, 2),
+                ('GenStrTables', 'GenStrTables_q1', str_case, 8)]
     cases, gen_states = [], 0
     for module, cfg, maker, slots in cfgs:
         res = tlc.run(module, cfg, workers=1, heap='3g')
